@@ -336,7 +336,7 @@ func ruleMarker(p *Prog, r *Report) {
 						cands[constant.StringVal(cv)] = true
 					}
 				}
-				if dom := c.fieldDomain(fieldOrigin{e.VerT, fi}); dom != nil && dom.closed {
+				if dom := c.fieldDomain(fieldOrigin{t: e.VerT, f: fi}); dom != nil && dom.closed {
 					for _, s := range dom.allowed {
 						cands[s] = true
 					}
@@ -376,7 +376,7 @@ func ruleMarker(p *Prog, r *Report) {
 				// open-domain pre-release text after '-': non-empty is older than empty
 				if len(fp.groups) > 0 {
 					g := fp.groups[0]
-					if dom := c.fieldDomain(fieldOrigin{e.VerT, fi}); (dom == nil || !dom.closed) && strings.HasSuffix(g.precedingText(), "-") && len(names) <= 2 && semverShaped(g.ri) {
+					if dom := c.fieldDomain(fieldOrigin{t: e.VerT, f: fi}); (dom == nil || !dom.closed) && strings.HasSuffix(g.precedingText(), "-") && len(names) <= 2 && semverShaped(g.ri) {
 						ov := laterFree(fi)
 						ov[tkey] = override{xGap: true, yConst: &empty}
 						ov["*("+tkey+")"] = override{free: true}
